@@ -552,3 +552,47 @@ V('C01-nodelist-end-from-first', 'C01', ND,
   "        for n in nodelist:\n            if n is not None:\n                pos_end = n.pos_end", 'R01i')
 V('C01-benign', 'C01', NC,
   "        # a node list that we are building\n", "        # the node list that we are building\n", 'SILENT')
+
+
+# ----------------------------------------------------------------------- C02 / C10
+DL = 'pylatexenc/latexnodes/parsers/_delimited.py'
+SA2 = 'pylatexenc/latexnodes/parsers/_stdarg.py'
+V('C02-d-arg-mandatory', 'C02', SA2,
+  """            return LatexDelimitedGroupParser(
+                delimiters=(open_char, close_char,),
+                optional=True,""",
+  """            return LatexDelimitedGroupParser(
+                delimiters=(open_char, close_char,),
+                optional=False,""", 'R02b')
+V('C02-slot-skipped', 'C02', 'pylatexenc/macrospec/_argumentsparser.py',
+  "            argnlist.append( argnodes )\n",
+  "            if argnodes is not None:\n                argnlist.append( argnodes )\n", 'R02c')
+V('C02-env-end-any-name', 'C02', 'pylatexenc/macrospec/_environmentbodyparser.py',
+  """        if token.tok == 'end_environment' \\
+           and token.arg == self.delimited_expression_parser.environmentname:""",
+  """        if token.tok == 'end_environment':""", 'R02d')
+V('C02-token-kind-unhandled', 'C02', NC,
+  "        elif tok.tok == 'specials':\n\n            self.parse_specials(tok)\n            return\n",
+  "", 'R02a')
+V('C02-linebreak-optarg-after-space', 'C02', 'pylatexenc/latexwalker/_defaultspecs.py',
+  "                LatexArgumentSpec(LatexStandardArgumentParser('[', allow_pre_space=False)),",
+  "                LatexArgumentSpec(LatexStandardArgumentParser('[')),", 'R02g')
+V('C02-benign', 'C02', DL,
+  "        # return the outer, original parsing state.\n", "        # return the outer (original) parsing state.\n", 'SILENT')
+V('C10-math-delimiter-not-forwarded', 'C10', 'pylatexenc/latexnodes/parsers/_math.py',
+  "                math_mode_delimiter=self.math_mode_delimiter,\n", "", 'R10a')
+V('C10-node-gets-math-state', 'C10', 'pylatexenc/latexnodes/parsers/_math.py',
+  "            parsing_state=self.parsing_state,\n            delimiters=self.parsed_delimiters,",
+  "            parsing_state=self.math_parsing_state,\n            delimiters=self.parsed_delimiters,", 'R10a')
+V('C10-leave-keeps-delimiter', 'C10', 'pylatexenc/latexnodes/_walkerbase.py',
+  "            math_mode_delimiter=None\n", "            math_mode_delimiter=trigger_token and trigger_token.arg\n", 'R10b')
+V('C10-text-macro-no-mode', 'C10', 'pylatexenc/latexwalker/_defaultspecs.py',
+  "            MacroSpec('textbf', arguments_spec_list=[ _arg_textmode('{') ]),",
+  "            MacroSpec('textbf', '{'),", 'R10c')
+V('C10-delims-shortest-first', 'C10', 'pylatexenc/latexnodes/_parsingstate.py',
+  "            reverse=True,\n", "", 'R10d')
+V('C10-collector-state-rebound', 'C10', 'pylatexenc/latexnodes/parsers/_generalnodes.py',
+  "        pos_start = token_reader.cur_pos()\n\n        collector =",
+  "        pos_start = token_reader.cur_pos()\n        parsing_state = parsing_state.sub_context(in_math_mode=False)\n\n        collector =", 'R10f')
+V('C10-benign', 'C10', 'pylatexenc/latexnodes/parsers/_math.py',
+  "        pos_end = token_reader.cur_pos()\n", "        pos_end = token_reader.cur_pos()  # after the closing delimiter\n", 'SILENT')
